@@ -58,6 +58,12 @@ func (g *gzipResponseWriter) sendHeader() {
 }
 
 func (g *gzipResponseWriter) Write(b []byte) (int, error) {
+	// Once the response has overflowed the buffer it is streamed uncompressed to
+	// the end: later chunks must not go back into the buffer (Finish would drop them)
+	if g.bufferExceeded {
+		return g.ResponseWriter.Write(b)
+	}
+
 	// Check if adding this data would exceed max buffer size
 	if g.buf.Len()+len(b) > MaxCompressionBufferSize {
 		// Mark as exceeded and fall back to streaming uncompressed
